@@ -118,7 +118,53 @@ pub fn run(args: &[u64], out: &mut Out) {
             }
             5 => {
                 let i = next(&mut p);
-                out.push(world.despawn(href(&hs, i)).is_err() as u64);
+                let r = world.despawn(href(&hs, i));
+                if r.is_ok() {
+                    // an entity revived later under the same handle (spawn_at) is a new entity for the reports
+                    snapshot.remove(&u64::from(href(&hs, i).to_bits()));
+                }
+                out.push(r.is_err() as u64);
+            }
+            7 => {
+                // one column batch of n rows into the (T, filler) archetype: several ids are taken in one go
+                let (n, v) = (next(&mut p) as u32, next(&mut p) as u32);
+                let mut ty = ColumnBatchType::new();
+                ty.add::<Tk>();
+                ty.add::<Filler>();
+                let mut b = ty.into_batch(n);
+                {
+                    let mut w = b.writer::<Tk>().unwrap();
+                    for i in 0..n {
+                        let _ = w.push(TkNew(v + 2 * i));
+                    }
+                }
+                {
+                    let mut w = b.writer::<Filler>().unwrap();
+                    for _ in 0..n {
+                        let _ = w.push(Filler(7));
+                    }
+                }
+                let new: Vec<Entity> = world.spawn_column_batch(b.build().expect("complete batch")).collect();
+                for h in new {
+                    hs.push(h);
+                    out.push(h.to_bits().into());
+                }
+            }
+            8 => {
+                // spawn_at on a handle that is not live (a live one would be "the same entity" with new components,
+                // which the property does not speak about): revives the id or evicts its current holder
+                let (i, v) = (next(&mut p), next(&mut p) as u32);
+                match hs.get(i as usize).copied() {
+                    Some(h) if !world.contains(h) => {
+                        let evicted: Vec<u64> = world.iter().map(|e| u64::from(e.entity().to_bits())).filter(|b| *b as u32 == h.id()).collect();
+                        for b in evicted {
+                            snapshot.remove(&b);
+                        }
+                        world.spawn_at(h, (TkNew(v), Filler(7)));
+                        out.push(0);
+                    }
+                    _ => out.push(9),
+                }
             }
             6 => {
                 let n = next(&mut p) as usize;
